@@ -178,7 +178,6 @@ package bytesconv
 //@   ensures err != nil ==> this.wlen == old(this.wlen)
 //@ interface network.Writer.Flush(this) err
 
-
 // ---- C17: the percent codec (query arguments) ----
 // Ghost description of "e is the encoding of the byte string qx[0:qn]": qpos[k] is where the token of
 // qx[k] starts in e, qfs is the index of the first source byte that is not copied verbatim (qn if none).
